@@ -188,6 +188,66 @@ func runC13(c *eng.Ctx) {
 	ruleLockPairing(c, "server/partition.go")
 	c.Floor(30)
 
+	// ---- R13.7 check, replace and register are one critical section
+	c.Rule("R13.7", "K4")
+	if fn := c.Fn("server.(*partition).Subscribe"); fn != nil {
+		consF := p.Field("server", "partition", "consumers")
+		muF := p.Field("server", "partition", "consumersMu")
+		var lookups, updates, unlocks []ssa.Instruction
+		eng.Instrs(fn, func(in ssa.Instruction) {
+			switch x := in.(type) {
+			case *ssa.Lookup:
+				if eng.Load(consF, nil)(x.X) {
+					lookups = append(lookups, in)
+				}
+			case *ssa.MapUpdate:
+				if eng.Load(consF, nil)(x.Map) {
+					updates = append(updates, in)
+				}
+			case *ssa.Call:
+				if sc := x.Call.StaticCallee(); sc != nil && (sc.Name() == "Unlock" || sc.Name() == "RUnlock") && len(x.Call.Args) > 0 {
+					if fa, ok := x.Call.Args[0].(*ssa.FieldAddr); ok && fieldIs(fa, muF) {
+						unlocks = append(unlocks, in)
+					}
+				}
+			}
+		})
+		if len(lookups) == 0 || len(updates) == 0 {
+			c.Unresolved("lookup / update of p.consumers in partition.Subscribe")
+		} else {
+			bad := ""
+			for _, u := range unlocks {
+				u := u
+				// released after the look-up ...
+				q1 := &eng.PathQuery{Fn: fn, FromAfter: lookups, Target: func(x ssa.Instruction) bool { return x == u }, CutInstr: func(x ssa.Instruction) bool {
+					for _, m := range updates {
+						if x == m {
+							return true
+						}
+					}
+					return false
+				}}
+				if q1.Find() == nil {
+					continue
+				}
+				// ... and the registration still follows
+				q2 := &eng.PathQuery{Fn: fn, FromAfter: []ssa.Instruction{u}, Target: func(x ssa.Instruction) bool {
+					for _, m := range updates {
+						if x == m {
+							return true
+						}
+					}
+					return false
+				}}
+				if q2.Find() != nil {
+					bad = c.Pos(u)
+				}
+			}
+			c.Check(bad == "", "group subscriber check and registration are atomic", c.Pos(updates[0]), "consumersMu is held from the look-up of p.consumers[groupID] to the store of the new entry", "consumersMu is released at "+bad+" between looking up the group's current subscriber and registering the new one: two subscribers of the group can both pass the epoch check and both start a loop, and an older epoch can overtake a newer one")
+		}
+	}
+	c.Floor(1)
+
 	// ---- R13.6 cancelling a subscription really signals its loop, once
 	c.Rule("R13.6", "K2")
 	if fn := c.Fn("server.(*subscription).Close"); fn != nil {
